@@ -55,6 +55,9 @@ var (
 type Gen struct {
 	P        Picker
 	NoAstral bool
+	// ShapeOnly: scalar leaves take their default without a choice; only pointers, slices,
+	// maps and interface slots vary (witness values for map extraction)
+	ShapeOnly bool
 	MaxDepth int
 	stack    []reflect.Type
 	ptrs     map[reflect.Type][]reflect.Value
@@ -98,6 +101,17 @@ var timeType = reflect.TypeOf(time.Time{})
 func (g *Gen) Value(t reflect.Type, path string) reflect.Value {
 	v := reflect.New(t).Elem()
 	pick := func(n int) int {
+		if g.ShapeOnly {
+			switch t.Kind() {
+			case reflect.Ptr, reflect.Map, reflect.Interface:
+			case reflect.Slice:
+				if t.Elem().Kind() == reflect.Uint8 {
+					return 0
+				}
+			default:
+				return 0
+			}
+		}
 		i := g.P.Dev(n, path)
 		return i
 	}
